@@ -251,6 +251,32 @@ Lemma and_inplace_eq ah al bh bl rh rl :
   sc_uint128_bitwise_and_inplace ah al bh bl = sc_uint128_bitwise_and ah al bh bl rh rl.
 Proof. reflexivity. Qed.
 
+(* `a == b is allowed` (sc_uint128.h): the same source translated with b aliased to a computes what the
+   non-aliased translation computes on equal operands *)
+Lemma add_inplace_aliased_eq ah al : sc_uint128_add_inplace_aliased ah al = sc_uint128_add_inplace ah al ah al.
+Proof. reflexivity. Qed.
+Lemma sub_inplace_aliased_eq ah al : sc_uint128_sub_inplace_aliased ah al = sc_uint128_sub_inplace ah al ah al.
+Proof. reflexivity. Qed.
+Lemma or_inplace_aliased_eq ah al : sc_uint128_bitwise_or_inplace_aliased ah al = sc_uint128_bitwise_or_inplace ah al ah al.
+Proof. reflexivity. Qed.
+Lemma and_inplace_aliased_eq ah al : sc_uint128_bitwise_and_inplace_aliased ah al = sc_uint128_bitwise_and_inplace ah al ah al.
+Proof. reflexivity. Qed.
+
+Lemma aliased_correct ah al : wf128 ah al ->
+  val128 (sc_uint128_add_inplace_aliased ah al) = (2 * val128 (ah, al)) mod M128 /\
+  val128 (sc_uint128_sub_inplace_aliased ah al) = 0 /\
+  sc_uint128_bitwise_or_inplace_aliased ah al = (ah, al) /\
+  sc_uint128_bitwise_and_inplace_aliased ah al = (ah, al).
+Proof.
+  intros H. repeat split.
+  - rewrite add_inplace_aliased_eq, (add_inplace_eq ah al ah al 0 0).
+    destruct (add_correct ah al ah al 0 0 H H) as [E _]. rewrite E. f_equal. ring.
+  - rewrite sub_inplace_aliased_eq, (sub_inplace_eq ah al ah al 0 0).
+    destruct (sub_correct ah al ah al 0 0 H H) as [E _]. rewrite E. rewrite Z.sub_diag. reflexivity.
+  - unfold sc_uint128_bitwise_or_inplace_aliased. cbv zeta. rewrite !Z.lor_diag. reflexivity.
+  - unfold sc_uint128_bitwise_and_inplace_aliased. cbv zeta. rewrite !Z.land_diag. reflexivity.
+Qed.
+
 Lemma neg_correct h l rh rl : wf128 h l ->
   val128 (sc_uint128_bitwise_neg h l rh rl) = M128 - 1 - val128 (h, l).
 Proof.
